@@ -29,6 +29,10 @@ Definition run_line (line : list byte) : list byte :=
       if beq_bytes name (str "spec.@conv") then str "= (conv ok)" else
       if beq_bytes name (str "@sig") then run_sig_line rest else
       if beq_bytes name (str "spec.@sig") then spec_sig_line rest else
+      if beq_bytes name (str "@from_name") then run_from_name_line rest else
+      if beq_bytes name (str "spec.@from_name") then spec_from_name_line rest else
+      if beq_bytes name (str "@cipher") then run_cipher_line rest else
+      if beq_bytes name (str "spec.@cipher") then spec_cipher_line rest else
       if beq_bytes name (str "@keybits") then run_keybits_line rest else
       if beq_bytes name (str "spec.@keybits") then spec_keybits_line rest else
       match find_entry name all_entries with
